@@ -430,7 +430,7 @@ func cmdCheck(args []string) int {
 	if nViol > 0 {
 		exit = 1
 	}
-	if cfg.MinObligation > 0 && nObl < cfg.MinObligation && *only == "" && *fn == "" {
+	if cfg.MinObligation > 0 && nObl < cfg.MinObligation && *only == "" && *fn == "" && len(bindErrs) == 0 {
 		fmt.Printf("ENGINE-ERROR: only %d obligations generated, expected at least %d (vacuity guard)\n", nObl, cfg.MinObligation)
 		exit = 2
 	}
